@@ -245,14 +245,12 @@ impl AstNode for StakeDelegationCertificate {
     const RULE: Rule = Rule::cardano_stake_delegation_certificate;
 
     fn parse(pair: Pair<Rule>) -> Result<Self, Error> {
-        let span = pair.as_span().into();
-        let mut inner = pair.into_inner();
-
-        Ok(StakeDelegationCertificate {
-            pool: DataExpr::parse(inner.next().unwrap())?,
-            stake: DataExpr::parse(inner.next().unwrap())?,
-            span,
-        })
+        // the grammar accepts this block as a list of named fields, but neither the AST
+        // construction nor the lowering exist yet
+        Err(Error::custom(
+            "stake delegation certificates are not supported yet",
+            &pair,
+        ))
     }
 
     fn span(&self) -> &Span {
